@@ -227,14 +227,18 @@ func c51Run(t *testing.T, mgmt *e2e.ManagementServer, steps []c51Step, id int, t
 			cfg := cc.wait(nil, st.Exp, bound)
 			tr.Emit(map[string]any{"ev": "select", "i": st.I, "c": st.C, "err": err != nil, "cfg": cfg})
 		case "commit", "commit_again":
-			rpcs[st.I].OnCommitted()
+			if res := rpcs[st.I]; res != nil { // nil: its SelectConfig failed (logged; the monitor stopped judging there)
+				res.OnCommitted()
+			}
 			cfg := cc.wait(nil, st.Exp, bound)
 			tr.Emit(map[string]any{"ev": st.A, "i": st.I, "cfg": cfg})
 		}
 	}
 	// release what is still selected so that nothing outlives the resolver
 	for _, res := range rpcs {
-		res.OnCommitted()
+		if res != nil {
+			res.OnCommitted()
+		}
 	}
 }
 
@@ -248,7 +252,7 @@ func TestVerifC51Replay(t *testing.T) {
 		t.Fatal(err)
 	}
 	defer tr.Close()
-	bound := time.Duration(vlib.EnvInt("VERIF_BOUND_MS", 2000)) * time.Millisecond
+	bound := time.Duration(vlib.EnvInt("VERIF_BOUND_MS", 5000)) * time.Millisecond
 	mgmt := e2e.StartManagementServer(t, e2e.ManagementServerOptions{AllowResourceSubset: true})
 	for i, ln := range lines {
 		var steps []c51Step
